@@ -268,7 +268,10 @@ func (r *schemaLoader) deref(input interface{}, parentRefs []string, basePath st
 	}
 
 	parentRefs = append(parentRefs, normalizedRef.String())
-	return r.deref(input, parentRefs, normalizedBasePath)
+
+	// the next $ref of the chain has been found in the document we have just been led to:
+	// it is resolved with the resolver for that document (fragment-only $ref designate its content, not the root's)
+	return r.transitiveResolver(basePath, *normalizedRef).deref(input, parentRefs, normalizedBasePath)
 }
 
 func (r *schemaLoader) shouldStopOnError(err error) bool {
